@@ -84,7 +84,7 @@ class TlcResult:
 
 
 STATS_RE = re.compile(r"(\d[\d,]*) states generated, (\d[\d,]*) distinct states found")
-COV_RE = re.compile(r"^<(\w+) line \d+, col \d+ to line \d+, col \d+ of module (\w+)>: (\d+):(\d+)", re.M)
+COV_RE = re.compile(r"^<(\w+) line \d+, col \d+ to line \d+, col \d+ of module (\w+)(?: \([\d ]+\))?>: (\d+):(\d+)", re.M)
 DEPTH_RE = re.compile(r"depth of the complete state graph search is (\d+)")
 
 
@@ -131,6 +131,8 @@ def run_tlc(module, cfg, timeout, tag, workers=None, coverage=True, simulate=Non
             pipe_to=None, env=None, extra_java="", expect_ok=True):
     """run TLC from SPEC; optionally pipe its stdout into a harness command (list).
     returns (TlcResult, harness_report_or_None)"""
+    if "Chain" in module or "Twin" in module:
+        coverage = False   # -coverage hangs on the mutually recursive evaluator of Chain.tla
     cmd, meta = tlc_cmd(module, cfg, workers, coverage, simulate, depth, tag=tag)
     e = dict(os.environ)
     e["JAVA_TOOL_OPTIONS"] = java_opts(extra_java)
@@ -389,6 +391,123 @@ def drive_and_validate(ev, layer, n, length, module, cfg, extra_args=()):
         os.remove(tr)
 
 
+def validate_trace_parallel(module, cfg, trace, tag, chunks, timeout=1500):
+    """split a trace (whose events are independent across chunk borders) and validate the chunks concurrently"""
+    import threading
+    lines = open(trace).read().splitlines()
+    chunks = max(1, min(chunks, len(lines) // 50 or 1))
+    size = (len(lines) + chunks - 1) // chunks
+    results = [None] * chunks
+    def work(i):
+        part = f"{trace}.{i}"
+        with open(part, "w") as f:
+            f.write("\n".join(lines[i * size:(i + 1) * size]) + "\n")
+        try:
+            results[i] = validate_trace(module, cfg, part, f"{tag}-{i}", timeout) + (part, i * size)
+        except ToolError as e:
+            results[i] = e
+    ts = [threading.Thread(target=work, args=(i,)) for i in range(chunks)]
+    [t.start() for t in ts]
+    [t.join() for t in ts]
+    for r in results:
+        if isinstance(r, Exception):
+            raise r
+    return results
+
+
+def check_C18(tier, ev):
+    ev.rule = ("(1) TLC evaluates the algebraic properties of the BIP-173/350 transcription (round trip, validity, rejection of "
+               "the other variant / other prefixes / EVERY single-character substitution over 38 substitutes / every case "
+               "flip) for every input of an enumerated set; (2) the harness calls addr_humanize / addr_canonicalize / "
+               "addr_validate / addr_make and the IntoAddr / IntoBech32 / IntoBech32m conversions of the real codecs on "
+               "generated prefixes (1-10 characters, incl. prefixes extending each other), byte strings of 1-64 bytes, names, "
+               "and corruptions of valid addresses (quick: sampled substitutions; thorough: every position x every "
+               "substitute), and TLC recomputes every logged call with the transcription. Non-trivial = calls on corrupted "
+               "/ foreign inputs (counted: events whose expected result is a rejection).")
+    ev.assumptions += ["SHA-256 (addr_make) is uninterpreted: functional, injective on the observed names, 32 bytes, valid under its codec",
+                       "inputs written entirely in upper case are a named don't-care (BIP-173 accepts them, an encoder never writes them)",
+                       "prefix domain: lower-case HRPs; an upper-case prefix (accepted by the HRP parser) makes addr_make produce "
+                       "addresses its own addr_validate rejects - borderline, not asserted",
+                       "the BCH code's guaranteed error detection is exercised, not proved"]
+    cfg = "mc/MC_Bech32_quick.cfg" if tier == "quick" else "mc/MC_Bech32_thorough.cfg"
+    res, _ = run_tlc("mc/MC_Bech32.tla", cfg, 3000, "C18-mc")
+    ev.add_tlc(os.path.basename(cfg)[:-4], res, ["Next"])
+    if res.violated:
+        spec_violation(ev, "mc", res)
+    tr = os.path.join(OUT, "C18-drive.ndjson")
+    npref, level, chunks = (4, 1, 8) if tier == "quick" else (10, 2, 12)
+    rep = run_mtv(["drive", "bech", str(npref), str(level), tr], tag="C18-drive")
+    results = validate_trace_parallel("trace/Trace_Bech32.tla", "trace/Trace_Bech32.cfg", tr, "C18-trace", chunks)
+    lines = [json.loads(l) for l in open(tr)]
+    ev.traces += rep["events"]
+    ev.evaluations += rep["events"]
+    ev.nontrivial += len({json.dumps([e["op"], e["codec"], e["prefix"], e["input"]]) for e in lines if e["ok"] != "true"})
+    ev.samples += [{k: (bytes(e[k]).decode("latin1") if k in ("prefix",) or (k in ("input", "out") and e["op"] != "humanize" and k == "input") else e[k]) for k in e} for e in lines[:2]]
+    ev.states += sum(r[1].distinct for r in results)
+    ev.transitions += sum(r[1].generated for r in results)
+    ev.runs.append({"stage": "drive+trace-validation", "events": rep["events"], "prefixes": rep["runs"],
+                    "chunks": len(results), "accepted": all(r[0] for r in results)})
+    for ok, r, part, off in results:
+        if not ok:
+            keep = os.path.join(VIOL, f"C18-trace-{off}.ndjson")
+            os.replace(part, keep)
+            m = re.search(r'MISMATCH line",\s*(\d+)', r.log)
+            ev.violations.append((keep, {"trace_rejected_at_line": m.group(1) if m else "?",
+                                         "tlc": [l for l in r.log.splitlines() if "MISMATCH" in l or "NOT ACCEPTED" in l or "violated" in l][:4]}))
+        elif os.path.exists(part):
+            os.remove(part)
+    if os.path.exists(tr):
+        os.remove(tr)
+
+
+def check_C20(tier, ev):
+    ev.rule = ("TLC enumerates every sequence of up to MaxSteps with_* steps (every subset, every permutation, repeated steps) of "
+               "AppBuilder (11 slots, followed by build) and of ContractWrapper (with_sudo/_empty, with_reply/_empty, "
+               "with_migrate/_empty, with_checksum); each sequence is applied to the real builder in a run-time loop (slots "
+               "normalised to tagged harness types; the k-th step supplies the value tagged k); observed: which tagged component "
+               "serves every message kind, api, block, storage, what the initialisation function is handed and how often it "
+               "runs, which supplied function serves sudo/reply/migrate, checksum(). Five compile-time sequences start from "
+               "the library's real defaults. Non-trivial = sequences of at least two steps (distinct sequences counted).")
+    ev.assumptions += ["generically typed slots cannot be mixed up by construction (type system); the check observes run-time identity"]
+    cfg = f"mc/MC_Builder_{tier}.cfg"
+    mc_and_replay(ev, "Builder.tla", cfg, "builder", 3000, ["Build", "Next"], emitting=[])
+    ev.exhaustive = True
+
+
+def check_C19(tier, ev):
+    ev.rule = ("TLC enumerates EVERY interleaving of two runs of the same history (store code / explicit id / duplicate, classic and "
+               "salted instantiation, execution with caught and uncaught failures, failing instantiation, bank, block update, sudo) "
+               "and checks Agree on the specification; each complete schedule is executed on two live Apps in one process: at equal "
+               "positions Ok/Err, events, data bytes, code ids, checksums, contract addresses, block and the raw storage dump must "
+               "be byte-identical, and every Ok/Err must be what the specification says. The same schedules are run in a second "
+               "process and the transcript digests compared. Staking histories (two delegators on one validator, slashing, "
+               "unbonding) are run on two fresh Apps under a random interleaving with the same comparison. Non-trivial = "
+               "distinct (history, schedule) pairs / distinct staking histories of at least two operations.")
+    ev.assumptions += ["absence of hidden inputs is observed across two instances and two processes, not proved",
+                       "histories are the fixed ones of spec/mc/MC_Twin.tla plus the TLC-enumerated staking histories"]
+    cfg = f"mc/MC_Twin_{tier}.cfg"
+    # (no -coverage: TLC's coverage instrumentation does not terminate on the recursive evaluator of Chain)
+    res, rep = mc_and_replay(ev, "mc/MC_Twin.tla", cfg, "twin", 600, [], emitting=[], coverage=False)
+    d1 = rep["extra"].get("transcript_digest")
+    # second process, later: same schedules, same transcripts?
+    c = emit_cfg(cfg, os.path.basename(cfg)[:-4] + "_emit.cfg")
+    res2, rep2 = run_tlc("mc/MC_Twin.tla", c, 600, "C19-twin-second", workers=1, coverage=False,
+                         pipe_to=[MTV, "replay", "twin", "-"])
+    ev.add_report("second process", rep2, as_traces=False)
+    # (TLC with one worker prints the schedules in a fixed order only per run; compare per-script digests instead of order)
+    d2 = rep2["extra"].get("transcript_digest")
+    ev.runs.append({"stage": "cross-process", "digest_first": d1, "digest_second": d2})
+    if d1 != d2:
+        os.makedirs(VIOL, exist_ok=True)
+        path = os.path.join(VIOL, "C19-crossprocess.json")
+        json.dump({"layer": "twin", "what": "transcripts of two processes differ", "first": d1, "second": d2}, open(path, "w"))
+        ev.violations.append((path, {"cross_process": "the same schedules gave different transcripts in a second process"}))
+    st_cfg = "mc/MC_Staking_quick4.cfg" if tier == "quick" else "mc/MC_Staking_dust.cfg"
+    mc_and_replay(ev, "mc/MC_Staking.tla", st_cfg, "twin-staking", 3000, ["Delegate", "Undelegate", "Slash", "Advance"],
+                  emitting=["Delegate"])
+    ev.exhaustive = True
+
+
 def mc_and_replay(ev, module, cfg, layer, timeout, required_actions, emit=("Emit",), emitting=None,
                   coverage=True, env=None, need_features=()):
     name = os.path.basename(cfg)[:-4]
@@ -404,6 +523,8 @@ def mc_and_replay(ev, module, cfg, layer, timeout, required_actions, emit=("Emit
     ev.add_report(name + ":replay", rep)
     # states that print a script: all distinct states except the initial one and the canonical ones reached by Settle
     expected = res.distinct if emitting is None else res.distinct - res.cov_distinct.get("Settle", 0) - 1
+    if emitting == []:
+        expected = 1
     if not coverage:
         expected = 1
     if rep["scripts"] < expected and not res.violated:
@@ -590,20 +711,21 @@ def check_staking(tier, ev):
     ev.exhaustive = True
 
 
-CHECKS = {"C06": check_C06, "C07": check_C07, "C09": check_C09}
+CHECKS = {"C06": check_C06, "C07": check_C07, "C09": check_C09, "C18": check_C18, "C19": check_C19, "C20": check_C20}
 for _p in STAKING:
     CHECKS[_p] = check_staking
 for _p in CHAIN:
     CHECKS[_p] = check_chain
 
-REPLAY_LAYER = {"C06": "overlay", "C07": "prefixed", "C09": "bank"}
+REPLAY_LAYER = {"C06": "overlay", "C07": "prefixed", "C09": "bank", "C19": "twin", "C20": "builder"}
 for _p in CHAIN:
     REPLAY_LAYER[_p] = "chain"
 for _p in STAKING:
     REPLAY_LAYER[_p] = "staking"
 TRACE_SPEC = {"C06": ("trace/Trace_Overlay.tla", "trace/Trace_Overlay.cfg"),
               "C07": ("trace/Trace_Prefixed.tla", "trace/Trace_Prefixed.cfg"),
-              "C09": ("trace/Trace_Bank.tla", "trace/Trace_Bank.cfg")}
+              "C09": ("trace/Trace_Bank.tla", "trace/Trace_Bank.cfg"),
+              "C18": ("trace/Trace_Bech32.tla", "trace/Trace_Bech32.cfg")}
 
 
 def main():
